@@ -168,3 +168,17 @@ class Schedule(FnCheck):
         ex.oblige(st, 'repeat_index_and_msg', z3.ForAll([j], z3.Implies(
             z3.And(0 <= j, j <= rep), z3.And(r[j] == j + 1, m[j] == self.msg.e))))
         ex.oblige(st, 'not_quit', z3.Not(quit_) if quit_ is not None else z3.BoolVal(False))
+
+
+# "Messages the node sent itself are ignored when multicast loops them back": the bookkeeping contracts of the
+# receive loop live in contracts/C14.py (duplicate filter); the two that decide this clause are re-checked here.
+from contracts import C14 as _c14   # noqa: E402
+
+
+@register
+class OwnIdsPreregistered(_c14.OwnMessageIds):
+    id = 'C15.own_ids_preregistered'
+    prop = 'C15'
+    doc = ('add_outbound_message puts the MessageID of an outgoing message at the NEWEST end of the bounded id memory '
+           '(appendleft, the end received ids are added to, so the next received ids evict older entries first) before '
+           'the message is enqueued for sending: the looped-back copy is recognised as known')
